@@ -43,7 +43,8 @@ func denomOut(d transfertypes.Denom) M {
 			valid = "other"
 		}
 	}
-	return M{"trace": tr, "base": d.Base, "valid": valid, "path": d.Path(), "ibc": d.IBCDenom(), "native": d.IsNative()}
+	return M{"trace": tr, "base": d.Base, "valid": valid, "path": d.Path(), "ibc": d.IBCDenom(), "native": d.IsNative(),
+		"hopFree": d.ValidateBaseNotHopLike() == nil}
 }
 
 func safePure(f func() any) (out any) {
